@@ -98,6 +98,11 @@ def generate(R, tier):
                 name = R.choice(GLOBAL_OK)
             steps.append({"call": name, "par": _par(R, name)})
         sc["persist"] = [R.choice(sorted(catalog.PERSIST)) for _ in range(R.choice([0, 0, 1, 2]))]
+        # in one of the two histories a pre-existing object may already have been used before the re-seeding
+        sc["preuse"] = [[], []]
+        for j, nm in enumerate(sc["persist"]):
+            if nm in catalog.PREUSE_OK and R.random() < 0.5:
+                sc["preuse"][R.randrange(2)].append(j)
         for j, nm in enumerate(sc["persist"]):
             steps.insert(R.randint(0, len(steps)), {"call": "use", "obj": j, "par": {}})
         sc["steps"] = steps
@@ -137,6 +142,10 @@ def shrink(sc):
         if any(sc["prefix"]):
             c = copy.deepcopy(sc)
             c["prefix"] = [[], ["prng.random"]]
+            yield c
+        if any(sc.get("preuse") or []):
+            c = copy.deepcopy(sc)
+            c["preuse"] = [[], []]
             yield c
         if sc.get("fresh"):
             c = copy.deepcopy(sc)
@@ -181,7 +190,7 @@ def _run_prefix(ctx, names):
             catalog.CAT[n]["fn"](ctx, None, {})
 
 
-def run_program(sc, prefix, wnum):
+def run_program(sc, prefix, wnum, hist=0):
     """One execution: prefix history, seed, program.  Returns (step digests, final state digest, entropy reads)."""
     with entropy.active(entropy.World(wnum)) as W:
         ctx = catalog.Ctx(sc["world"])
@@ -196,6 +205,13 @@ def run_program(sc, prefix, wnum):
                 pobjs.append(catalog.PERSIST[nm](catalog.Ctx(sc["world"])))
             except Exception as e:
                 pobjs.append(e)
+        for j in (sc.get("preuse") or [[], []])[hist]:
+            # this history already used the object (on the unseeded global generator)
+            try:
+                if j < len(pobjs) and not isinstance(pobjs[j], Exception):
+                    pobjs[j][1](catalog.Ctx(sc["world"]), pobjs[j][0])
+            except Exception:
+                pass
         prng.seed(sc["seed"])
         e0 = W.entropy_reads
         digs = []
@@ -227,7 +243,7 @@ def _exec_A(sc):
     st0 = (random.getstate(), numpy.random.get_state())
     X, gx, ex = run_program(sc, sc["prefix"][0], sc["worlds"][0])
     faults["prefix_history_switch"] = 1
-    Y1, g1, _ = run_program(sc, sc["prefix"][1], sc["worlds"][0])      # starts from whatever X left behind, other prefix
+    Y1, g1, _ = run_program(sc, sc["prefix"][1], sc["worlds"][0], hist=1)      # starts from whatever X left behind, other prefix
     faults["entropy_clock_world_switch"] = 1
     random.setstate(st0[0])
     numpy.random.set_state(st0[1])                                      # same interpreter history as X: only the world differs
